@@ -196,9 +196,64 @@ def natural_faults(tier):
     return recs
 
 
+def snapshot_follow(root):
+    """like snapshot, but directories reached through symlinks are entered (paths as the installer sees them)"""
+    snap = {}
+    for d, dirs, files in os.walk(root, followlinks=True):
+        for n in dirs + files:
+            p = os.path.join(d, n)
+            rel = os.path.relpath(p, root)
+            if os.path.isdir(p):
+                snap[rel] = ("dir", "", stat.S_IMODE(os.stat(p).st_mode), 0)
+            elif os.path.isfile(p):
+                st = os.stat(p)
+                snap[rel] = ("file", hashlib.sha256(open(p, "rb").read()).hexdigest()[:16], stat.S_IMODE(st.st_mode), st.st_size)
+    return snap
+
+
+def symlinked_dir_faults(tier):
+    """A previously installed tree in the stow/dotfiles layout: kessoku-di/references is a RELATIVE symlink to a directory
+    kept elsewhere. A step fails without a crash (the destination name of one file is occupied by a non-empty directory):
+    the installer must report the error, leave every other previous file intact or completely new, and keep the link."""
+    kessoku = vlib.build_kessoku()
+    tree = embedded_tree()
+    root = os.path.join(vlib.scratch(), "fsl")
+    recs = []
+    sub = [k for k, (rel, _) in enumerate(tree) if rel.startswith("references" + os.sep)]
+    for idx in (sub[-1:] if tier == "quick" else sub):
+        for linked in ("references", "kessoku-di"):
+            work = os.path.join(root, "l%d%s" % (idx, linked[0]))
+            base = os.path.join(work, "out")
+            os.makedirs(work)
+            prepare_prior(base, "older", tree)
+            store = os.path.join(work, "store")
+            os.makedirs(store)
+            if linked == "references":
+                shutil.move(os.path.join(base, "kessoku-di", "references"), os.path.join(store, "references"))
+                os.symlink(os.path.join("..", "..", "store", "references"), os.path.join(base, "kessoku-di", "references"))
+                link = os.path.join(base, "kessoku-di", "references")
+            else:
+                shutil.move(os.path.join(base, "kessoku-di"), os.path.join(store, "kessoku-di"))
+                os.symlink(os.path.join("..", "store", "kessoku-di"), os.path.join(base, "kessoku-di"))
+                link = os.path.join(base, "kessoku-di")
+            obst = os.path.join(base, "kessoku-di", tree[idx][0])
+            os.remove(obst)
+            os.makedirs(os.path.join(obst, "sub"))
+            before = snapshot_follow(base)
+            rc, err, _ = run_cli(kessoku, work, ["claude-code", "--path", base])
+            after = snapshot_follow(base)
+            extra = [] if os.path.islink(link) else ["the symlinked directory %s was replaced (it is no longer a link)" % os.path.relpath(link, base)]
+            recs.append(dict(k="lnk-%d-%s" % (idx, linked), prior="older, %s is a relative symlink to a directory" % linked, mode="error",
+                             syscall="renameat(natural: destination is a directory)", when=0, rc=rc, stderr=err[-300:],
+                             hit=dict(step="renameat", n=6, file_index=idx, injected=False, killed=False, path=obst, line="destination is a non-empty directory"),
+                             before=before, after=after, natural=True, extra_problems=extra))
+            shutil.rmtree(work, ignore_errors=True)
+    return recs
+
+
 def c15_oracle(tree, rec):
     """The property's text applied to one run. Returns list of problems."""
-    probs = []
+    probs = list(rec.get("extra_problems", []))
     hit = rec["hit"]
     i, n = hit["file_index"], hit["n"]
     pre = "kessoku-di" + os.sep
@@ -275,7 +330,7 @@ def registry_from_table():
     return [dict(type=r[0], name=r[1], src=r[2], skill=r[3], proj=r[4], user=r[5]) for r in rows], names
 
 
-C16_PRIORS = ["absent", "older", "same_odd", "unrelated", "base_is_file"]
+C16_PRIORS = ["absent", "older", "same_odd", "unrelated", "base_is_file", "base_is_symlink"]
 
 
 def c16_runs(tier):
@@ -343,6 +398,15 @@ def c16_runs(tier):
         elif pr == "base_is_file":
             os.makedirs(os.path.dirname(base), exist_ok=True)
             open(base, "w").write("i am a file\n")
+        physical = skill
+        if pr == "base_is_symlink":
+            # the base directory is a symlink to a directory kept elsewhere (dotfiles layout), holding an unrelated file
+            real = os.path.join(other, "realbase")
+            os.makedirs(real)
+            open(os.path.join(real, "NOTES.md"), "w").write("mine\n")
+            os.makedirs(os.path.dirname(base), exist_ok=True)
+            os.symlink(real, base)
+            physical = os.path.join(real, a["skill"])
         before = snapshot(work)
         env = dict(os.environ, HOME=home, GOMAXPROCS="2")
         # the process umask must not matter: the property fixes mode 0644 for every file
@@ -351,7 +415,7 @@ def c16_runs(tier):
         after = snapshot(work)
         m = re.search(r"Skills installed to: (.*)", out)
         rec = dict(k=k, agent=a["name"], opt=o, prior=pr, umask=um, rc=rc, stdout=out[-300:], stderr=err[-300:], reported=m.group(1).strip() if m else None,
-                   expected_dir=os.path.relpath(skill, work), work=work, custom=custom, user=user, home=home, cwd=cwd, before=before, after=after)
+                   expected_dir=os.path.relpath(physical, work), expected_reported=os.path.relpath(skill, work), work=work, custom=custom, user=user, home=home, cwd=cwd, before=before, after=after)
         shutil.rmtree(work, ignore_errors=True)
         return rec
     with ThreadPoolExecutor(max_workers=14) as ex:
@@ -380,8 +444,9 @@ def c16_oracle(tree, rec):
     for p, v in want.items():
         if after.get(p) != v:
             probs.append("%s is %s, expected a regular file with the embedded content and mode 0644" % (p, after.get(p)))
-    if rec["reported"] is None or os.path.relpath(rec["reported"], rec["work"]) != exp:
-        probs.append("reported installation directory %s, documented location is %s" % (rec["reported"], exp))
+    exp_rep = rec.get("expected_reported", exp)
+    if rec["reported"] is None or os.path.relpath(rec["reported"], rec["work"]) != exp_rep:
+        probs.append("reported installation directory %s, documented location is %s" % (rec["reported"], exp_rep))
     # nothing else created or modified, apart from missing parent directories of the skill directory
     for p in set(before) | set(after):
         if p in want:
